@@ -13,8 +13,9 @@
    mechanisms are the environment: [answers] says, call by call, whether the mechanism accepts
    (true) or returns an error (false); when the list is used up every further call is accepted.
 
-   [handle_rows] follows the loop of the source as it is now (repaired, commit "fix: ..." in
-   /repo); [legacy_handle_rows] is the loop as it was on the pinned tree (D13: both branches
+   [handle_rows] follows the loop of the source as it is now (repaired by commit dbdf6df
+   "fix: publish every pending eon public key, not only the first of a batch" in /repo);
+   [legacy_handle_rows] is the loop as it was on the pinned tree (D13: both branches
    `return errors.Wrap(err, ...)` unconditionally, errors.Wrap(nil) = nil).
 
    Definitions only; the proofs are in Proofs/EonPK.v. *)
@@ -332,6 +333,16 @@ Fixpoint wf_from (h : hcfg) (d : db) (ops : list op) : Prop :=
   match ops with
   | [] => True
   | o :: r => wf_op h d o /\ wf_from h (db_after d o) r
+  end.
+
+(* the weakest assumption about a history: every tick enumerates exactly the pending rows
+   (whatever they are) *)
+Fixpoint ticks_enumerate (d : db) (ops : list op) : Prop :=
+  match ops with
+  | [] => True
+  | o :: r =>
+      match o with OpTick enum _ => Permutation enum (outgoing d) | _ => True end /\
+      ticks_enumerate (db_after d o) r
   end.
 
 (* the mechanism accepts everything it is handed *)
